@@ -623,10 +623,48 @@ func locBranches(c *Ctx, a *flAgg) {
 		default:
 			okLoc = loc == nil
 		}
-		if okRel && okLocal && okLoc {
-			a.ok("LOC-branch", key, fmt.Sprintf("root kind %s: class %s (only when still unknown), relative path = what follows the matched prefix, local path ends with the relative path", kind, wantLoc), pos)
+		// ImportPath: the directory part of the relative path (under the module's
+		// path for a local module); untouched when the file sits directly in the root
+		okImp := false
+		imp := cell("ImportPath")
+		if rel != nil {
+			isDir := func(e *Expr) bool { // rel[:LastIndexByte(rel, '/')]
+				if e == nil || e.Op != OpSlice || e.Args[0].String() != rel.String() || e.Args[1] != nil || e.Args[2] == nil {
+					return false
+				}
+				ix := e.Args[2]
+				if !ix.calleeIs("strings", "LastIndexByte") || len(ix.Args) != 3 || ix.Args[1].String() != rel.String() {
+					return false
+				}
+				k, isC := ix.Args[2].intConst()
+				return isC && k == '/'
+			}
+			noSlash, haveSlash := false, false
+			for _, lt := range p.Lits {
+				at := lt.Atom
+				if at.Op == OpBin && at.Tok == token.EQL && at.Args[0].calleeIs("strings", "LastIndexByte") && len(at.Args[0].Args) == 3 && at.Args[0].Args[1].String() == rel.String() {
+					if k, isC := at.Args[1].intConst(); isC && k == -1 {
+						noSlash, haveSlash = lt.Pol, true
+					}
+				}
+			}
+			pkgS := gomods + "[" + rs + "]"
+			switch {
+			case !haveSlash:
+			case kind == "gomod" && noSlash:
+				okImp = imp != nil && imp.String() == pkgS
+			case kind == "gomod":
+				okImp = imp != nil && imp.Op == OpBin && imp.Tok == token.ADD && isDir(imp.Args[1]) && imp.Args[0].String() == "("+pkgS+" + \"/\")"
+			case noSlash:
+				okImp = imp == nil
+			default:
+				okImp = isDir(imp)
+			}
+		}
+		if okRel && okLocal && okLoc && okImp {
+			a.ok("LOC-branch", key, fmt.Sprintf("root kind %s: class %s (only when still unknown), relative path = what follows the matched prefix, local path ends with the relative path, import path = its directory part", kind, wantLoc), pos)
 		} else {
-			a.bad("LOC-branch", key, fmt.Sprintf("root kind %s: relative path ok=%v, local path ok=%v, class %s only-when-unknown ok=%v", kind, okRel, okLocal, wantLoc, okLoc), pos)
+			a.bad("LOC-branch", key, fmt.Sprintf("root kind %s: relative path ok=%v, local path ok=%v, class %s only-when-unknown ok=%v, import path ok=%v", kind, okRel, okLocal, wantLoc, okLoc, okImp), pos)
 		}
 	}
 }
